@@ -1,3 +1,305 @@
-import GoStd.Bytes
+/-
+C02 — Responses travel back along the Via stack.
+
+"A response … is relayed iff, after its topmost Via entry is discarded, another Via entry remains;
+it is then sent over that entry's transport to the entry's sent-by host and port (default 5060) -
+or, when the entry carries received, to that address and to its numeric rport if it has one (else
+the sent-by port) - with all remaining Via entries intact and in order."
+
+Model: the response branch of `Proxy.handleMessage` (`popVia`, then `getNextResponseHop`).
+Abstraction: `Lemmas.viaStack`. "The topmost Via entry" is what `getVia` reads: the decoded list of
+the FIRST Via-class header.
+-/
+import Proxy.Model
+import Lemmas.Abs
+import Lemmas.Pipe
+open GoStd Sip Proxy Lemmas
+
 namespace Props.C02
+
+/-- where a response goes, as a function of the Via entry that is topmost after the pop -/
+def responseHopOf (vp : ViaParam) : Hop :=
+  match getParam vp.params (str "received") with
+  | some r =>
+    { host := r, port := ((getParam vp.params (str "rport")).bind atoi).getD vp.getPort, transport := vp.transport }
+  | none => { host := vp.host, port := vp.getPort, transport := vp.transport }
+
+/-- `getNextResponseHop` reads the hop from the first entry of the first Via-class header and only
+decodes that header in place. -/
+theorem C02_hop (cfg : Cfg) (m m1 : Message) (vp : ViaParam) (rest : List ViaParam)
+    (hg : getVia cfg.cm m = some (vp :: rest, m1)) :
+    getNextResponseHop cfg m = (some (responseHopOf vp), m1) := by
+  unfold getNextResponseHop responseHopOf
+  simp only [hg]
+  cases getParam vp.params (str "received") with
+  | none => rfl
+  | some r =>
+    simp only []
+    cases (getParam vp.params (str "rport")).bind atoi <;> rfl
+
+/-- no readable Via entry: no hop -/
+theorem C02_hop_none (cfg : Cfg) (m : Message) :
+    (∀ vp rest m1, getVia cfg.cm m ≠ some (vp :: rest, m1)) → (getNextResponseHop cfg m).1 = none := by
+  intro h
+  unfold getNextResponseHop
+  cases hg : getVia cfg.cm m with
+  | none => rfl
+  | some p =>
+    obtain ⟨v, m1⟩ := p
+    cases v with
+    | nil => rfl
+    | cons vp rest => exact absurd hg (h vp rest m1)
+
+/-- the message is only decoded in place: its Via stack is unchanged -/
+theorem C02_hop_stack (cfg : Cfg) (m : Message) :
+    viaStack cfg.cm (getNextResponseHop cfg m).2.headers = viaStack cfg.cm m.headers := by
+  unfold getNextResponseHop
+  cases hg : getVia cfg.cm m with
+  | none => rfl
+  | some p =>
+    obtain ⟨v, m1⟩ := p
+    have := (viaStack_getVia cfg.cm hg).1
+    cases v with
+    | nil => exact this
+    | cons vp rest =>
+      simp only []
+      split
+      · exact this
+      · exact this
+
+/-! ### the four cases of the property text -/
+
+/-- no `received`: sent-by host and port over the entry's transport -/
+theorem C02_sentby (vp : ViaParam) (h : getParam vp.params (str "received") = none) :
+    responseHopOf vp = { host := vp.host, port := vp.getPort, transport := vp.transport } := by
+  simp [responseHopOf, h]
+
+/-- `received` and a numeric `rport`: that address and that port -/
+theorem C02_received_rport (vp : ViaParam) (r p : Bytes) (n : Int)
+    (h : getParam vp.params (str "received") = some r)
+    (hp : getParam vp.params (str "rport") = some p) (hn : atoi p = some n) :
+    responseHopOf vp = { host := r, port := n, transport := vp.transport } := by
+  simp [responseHopOf, h, hp, hn]
+
+/-- `received` and an `rport` that is not a number (e.g. the bare flag): sent-by port -/
+theorem C02_received_badrport (vp : ViaParam) (r p : Bytes)
+    (h : getParam vp.params (str "received") = some r)
+    (hp : getParam vp.params (str "rport") = some p) (hn : atoi p = none) :
+    responseHopOf vp = { host := r, port := vp.getPort, transport := vp.transport } := by
+  simp [responseHopOf, h, hp, hn]
+
+/-- `received` without `rport`: sent-by port -/
+theorem C02_received_norport (vp : ViaParam) (r : Bytes)
+    (h : getParam vp.params (str "received") = some r)
+    (hp : getParam vp.params (str "rport") = none) :
+    responseHopOf vp = { host := r, port := vp.getPort, transport := vp.transport } := by
+  simp [responseHopOf, h, hp]
+
+/-- sent-by port: the given one, else 5060 (5061 over TLS) -/
+theorem C02_port (vp : ViaParam) :
+    vp.getPort = if vp.port ≠ 0 then vp.port else if vp.transport = str "TLS" then 5061 else 5060 := by
+  unfold ViaParam.getPort
+  by_cases hp : vp.port = 0 <;> simp [hp]
+
+/-! ### relayed iff an entry remains -/
+
+/-- A response whose pop leaves no Via-class header is not relayed. -/
+theorem C02_no_via_no_send (cfg : Cfg) (st : St) (ev : RawEv) (m : Message)
+    (hresp : isRequest m = false)
+    (hnone : findHeader cfg.cm ((popVia cfg.cm m).getD m).headers viaName = none) :
+    (handleMessage cfg st ev m).2 = [] := by
+  have hg : getVia cfg.cm ((popVia cfg.cm m).getD m) = none := getVia_none_of_find_none cfg.cm hnone
+  unfold handleMessage
+  simp only [hresp, Bool.false_eq_true, ↓reduceIte, getNextResponseHop, hg]
+
+/-- more generally: no readable entry after the pop (none left, or the next Via-class header does
+not decode), no relay. -/
+theorem C02_no_hop_no_send (cfg : Cfg) (st : St) (ev : RawEv) (m : Message)
+    (hresp : isRequest m = false)
+    (hnone : (getNextResponseHop cfg ((popVia cfg.cm m).getD m)).1 = none) :
+    (handleMessage cfg st ev m).2 = [] := by
+  unfold handleMessage
+  simp only [hresp, Bool.false_eq_true, ↓reduceIte]
+  generalize getNextResponseHop cfg ((popVia cfg.cm m).getD m) = p at hnone
+  obtain ⟨hop, m2⟩ := p
+  simp only at hnone
+  subst hnone
+  rfl
+
+/-- A response with a readable entry after the pop is passed to `sendMessage` for the hop that entry
+determines. -/
+theorem C02_relay (cfg : Cfg) (st : St) (ev : RawEv) (m m1 m2 : Message) (vp : ViaParam) (rest : List ViaParam)
+    (hresp : isRequest m = false) (hpop : popVia cfg.cm m = some m1)
+    (hg : getVia cfg.cm m1 = some (vp :: rest, m2)) :
+    ∃ st1 m3, handleMessage cfg st ev m = sendMessage cfg st1 (responseHopOf vp) m3 := by
+  unfold handleMessage
+  simp only [hresp, Bool.false_eq_true, ↓reduceIte, hpop, Option.getD_some, C02_hop cfg m1 m2 vp rest hg]
+  exact ⟨_, _, rfl⟩
+
+/-- the remaining entries: the pop removes exactly the topmost one -/
+theorem C02_remaining (cfg : Cfg) (m m1 : Message) (hpop : popVia cfg.cm m = some m1)
+    (hne : ∀ hd, findHeader cfg.cm m.headers viaName = some hd → hd.value ≠ .via []) :
+    viaStack cfg.cm m1.headers = (viaStack cfg.cm m.headers).tail :=
+  viaStack_popVia cfg.cm hpop hne
+
+/-! ### end to end: a response through `handleMessage` and through one `step`
+
+`v` is the list `getVia` reads from the received response (the decoded first Via-class header),
+`rest` everything below it; the relayed message carries `v.tail ++ rest`, i.e. the received stack
+without its topmost entry (`v ≠ []` for every header that came off the wire, `parseVia_ne_nil`),
+and is sent to the hop determined by the new topmost entry. -/
+
+theorem C02_handleMessage_out (cfg : Cfg) (hc : ClassesOK cfg.cm) (st : St) (ev : RawEv) (m : Message)
+    (hresp : isRequest m = false) (o : Out) (ho : o ∈ (handleMessage cfg st ev m).2) :
+    ∃ (v rest : List ViaParam) (vp : ViaParam) (m' : Message),
+      (getVia cfg.cm m).map Prod.fst = some v ∧ viaStack cfg.cm m.headers = v ++ rest ∧
+      (v.tail ++ rest).head? = some vp ∧
+      o.data = m'.bytes cfg.cm ∧ viaStack cfg.cm m'.headers = v.tail ++ rest ∧
+      ∃ st1 m3, handleMessage cfg st ev m = sendMessage cfg st1 (responseHopOf vp) m3 := by
+  cases hp : popVia cfg.cm m with
+  | none =>
+    have hg : getVia cfg.cm m = none := by
+      have := popVia_isSome cfg.cm m
+      rw [hp] at this
+      cases hg : getVia cfg.cm m with
+      | none => rfl
+      | some p => rw [hg] at this; cases this
+    have : (handleMessage cfg st ev m).2 = [] := by
+      apply C02_no_hop_no_send cfg st ev m hresp
+      simp [hp, getNextResponseHop, hg]
+    rw [this] at ho; cases ho
+  | some m1 =>
+    obtain ⟨v, m0, rest, hg, h1, h2⟩ := viaStack_popVia_gen cfg.cm hp
+    cases hg1 : getVia cfg.cm m1 with
+    | none =>
+      have : (handleMessage cfg st ev m).2 = [] := by
+        apply C02_no_hop_no_send cfg st ev m hresp
+        simp [hp, getNextResponseHop, hg1]
+      rw [this] at ho; cases ho
+    | some q =>
+      obtain ⟨w, m2⟩ := q
+      cases w with
+      | nil =>
+        have : (handleMessage cfg st ev m).2 = [] := by
+          apply C02_no_hop_no_send cfg st ev m hresp
+          simp [hp, getNextResponseHop, hg1]
+        rw [this] at ho; cases ho
+      | cons vp r =>
+        have hhop := C02_hop cfg m1 m2 vp r hg1
+        have heq := handleMessage_response cfg st ev m hresp
+        simp only [hp, Option.getD_some, hhop] at heq
+        rw [heq] at ho
+        obtain ⟨hd, _⟩ := sendMessage_out cfg _ _ _ o ho
+        have e1 := viaEquiv_respPin cfg hc st (some (responseHopOf vp)) m2
+        have e2 := viaEquiv_getClientTransaction cfg.cm hc.cseq_via (respPin cfg st (some (responseHopOf vp)) m2).2
+        have hs : viaStack cfg.cm m2.headers = viaStack cfg.cm m1.headers := (viaStack_getVia cfg.cm hg1).1
+        refine ⟨v, rest, vp, _, by rw [hg]; rfl, h1, ?_, hd, ?_, _, _, heq⟩
+        · rw [← h2]; exact viaStack_head_of_getVia cfg.cm hg1
+        · rw [e2.1, e1.1, hs, h2]
+
+/-- A response event through one `step`: every packet it produces serialises a message carrying the
+received Via stack minus its topmost entry, all remaining entries intact and in order, and the
+whole step is a `sendMessage` to the hop the new topmost entry determines. -/
+theorem C02_step (cfg : Cfg) (hc : ClassesOK cfg.cm) (st : St) (ev : RawEv)
+    (hresp : isRequest ev.msg = false) (o : Out) (ho : o ∈ (step cfg st ev).2) :
+    ∃ (v rest : List ViaParam) (vp : ViaParam) (m' : Message),
+      (getVia cfg.cm ev.msg).map Prod.fst = some v ∧ viaStack cfg.cm ev.msg.headers = v ++ rest ∧
+      (v.tail ++ rest).head? = some vp ∧
+      o.data = m'.bytes cfg.cm ∧ viaStack cfg.cm m'.headers = v.tail ++ rest ∧
+      ∃ st1 m3, step cfg st ev = sendMessage cfg st1 (responseHopOf vp) m3 := by
+  have he := viaEquiv_step_response cfg hc st ev hresp
+  have hstep : step cfg st ev = handleMessage cfg
+      (handleDialog cfg (handleRawMessage cfg st ev).1 ev.peerAddr ev.peerPort (handleRawMessage cfg st ev).2).1 ev
+      (handleDialog cfg (handleRawMessage cfg st ev).1 ev.peerAddr ev.peerPort (handleRawMessage cfg st ev).2).2 := by
+    unfold step
+    rcases handleRawMessage cfg st ev with ⟨st1, m1⟩
+    simp only []
+  generalize (handleDialog cfg (handleRawMessage cfg st ev).1 ev.peerAddr ev.peerPort
+    (handleRawMessage cfg st ev).2).1 = stD at hstep
+  generalize (handleDialog cfg (handleRawMessage cfg st ev).1 ev.peerAddr ev.peerPort
+    (handleRawMessage cfg st ev).2).2 = mD at hstep he
+  have hrespD : isRequest mD = false := by
+    unfold isRequest at hresp ⊢
+    rw [he.2.2]; exact hresp
+  rw [hstep] at ho ⊢
+  obtain ⟨v, rest, vp, m', a1, a2, a3, a4, a5, a6⟩ := C02_handleMessage_out cfg hc stD ev mD hrespD o ho
+  exact ⟨v, rest, vp, m', by rw [← he.2.1]; exact a1, by rw [← he.1]; exact a2, a3, a4, a5, a6⟩
+
+/-- For a response that came off the wire (first Via-class header still raw) the relayed stack is
+exactly the tail of the received one. -/
+theorem C02_step_raw (cfg : Cfg) (hc : ClassesOK cfg.cm) (st : St) (ev : RawEv)
+    (hresp : isRequest ev.msg = false)
+    (hraw : ∀ hd, findHeader cfg.cm ev.msg.headers viaName = some hd → ∃ s, hd.value = .raw s)
+    (o : Out) (ho : o ∈ (step cfg st ev).2) :
+    ∃ m' : Message, o.data = m'.bytes cfg.cm ∧
+      viaStack cfg.cm m'.headers = (viaStack cfg.cm ev.msg.headers).tail := by
+  obtain ⟨v, rest, vp, m', a1, a2, _, a4, a5, _⟩ := C02_step cfg hc st ev hresp o ho
+  refine ⟨m', a4, ?_⟩
+  rw [a5, a2]
+  cases hg : getVia cfg.cm ev.msg with
+  | none => rw [hg] at a1; cases a1
+  | some p =>
+    obtain ⟨w, m1⟩ := p
+    rw [hg] at a1
+    simp only [Option.map_some, Option.some.injEq] at a1
+    subst a1
+    obtain ⟨hd, hf, hv, _⟩ := getVia_some cfg.cm hg
+    have hne : w ≠ [] := by
+      rcases hv with hv | ⟨s, _, hp⟩
+      · obtain ⟨s, hs⟩ := hraw hd hf
+        rw [hs] at hv; cases hv
+      · exact parseVia_ne_nil s w hp
+    cases w with
+    | nil => exact absurd rfl hne
+    | cons x xs => rfl
+
+/-! ### non-vacuity (fixtures of `Lemmas.Pipe`)
+
+The example response carries the proxy's own Via on top and, beneath it, an entry with
+received=10.0.0.7;rport=4444: it is relayed there over UDP, with two Via entries left. -/
+
+example : isRequest (exEv exResp).msg = false ∧
+    (step exCfg exSt (exEv exResp)).2.map (fun o => match o with
+      | .udp ip port _ => (ip, port) | _ => ([], 0)) = [(str "10.0.0.7", 4444)] := by decide +kernel
+
+example : (viaStack exCfg.cm exResp.headers).length = 3 ∧ (popVia exCfg.cm exResp).isSome = true ∧
+    ((popVia exCfg.cm exResp).bind (fun m1 => (getVia exCfg.cm m1).map (fun p => p.1.map responseHopOf))) =
+      some [{ host := str "10.0.0.7", port := 4444, transport := str "UDP" },
+            { host := str "b", port := 5060, transport := str "TCP" }] := by decide +kernel
+
+/-- `C02_no_via_no_send` applies to a response with a single Via entry -/
+example : isRequest { exResp with headers := exResp.headers.take 1 } = false ∧
+    findHeader exCfg.cm ((popVia exCfg.cm { exResp with headers := exResp.headers.take 1 }).getD
+      { exResp with headers := exResp.headers.take 1 }).headers viaName = none := by
+  decide +kernel
+
+/-- the four cases of `responseHopOf`, each on a concrete entry -/
+def exVp (ps : List KeyValue) : ViaParam :=
+  { protoName := str "SIP", protoVersion := str "2.0", transport := str "TLS", host := str "h", port := 0, params := ps }
+
+example : getParam (exVp []).params (str "received") = none ∧
+    responseHopOf (exVp []) = { host := str "h", port := 5061, transport := str "TLS" } := by decide +kernel
+example : getParam (exVp [⟨str "received", str "r"⟩, ⟨str "rport", str "77"⟩]).params (str "received") = some (str "r") ∧
+    getParam (exVp [⟨str "received", str "r"⟩, ⟨str "rport", str "77"⟩]).params (str "rport") = some (str "77") ∧
+    atoi (str "77") = some 77 ∧
+    responseHopOf (exVp [⟨str "received", str "r"⟩, ⟨str "rport", str "77"⟩]) =
+      { host := str "r", port := 77, transport := str "TLS" } := by decide +kernel
+example : getParam (exVp [⟨str "rport", []⟩, ⟨str "received", str "r"⟩]).params (str "rport") = some [] ∧
+    atoi [] = none ∧
+    responseHopOf (exVp [⟨str "rport", []⟩, ⟨str "received", str "r"⟩]) =
+      { host := str "r", port := 5061, transport := str "TLS" } := by decide +kernel
+example : getParam (exVp [⟨str "received", str "r"⟩]).params (str "rport") = none ∧
+    responseHopOf (exVp [⟨str "received", str "r"⟩]) =
+      { host := str "r", port := 5061, transport := str "TLS" } := by decide +kernel
+
+/-- `C02_remaining`, `C02_step_raw`: the example response has a raw top Via -/
+example : ∀ hd, findHeader exCfg.cm exResp.headers viaName = some hd → ∃ s, hd.value = .raw s := by
+  intro hd h
+  have : findHeader exCfg.cm exResp.headers viaName =
+      some { name := str "Via", value := .raw (str "SIP/2.0/UDP 10.0.0.1:5060;branch=z9hG4bKabc") } := by
+    decide +kernel
+  rw [this] at h
+  cases h
+  exact ⟨_, rfl⟩
+
 end Props.C02
